@@ -329,7 +329,10 @@ func (p *PHYPayload) DecryptJoinAcceptPayload(key AES128Key) error {
 	}
 
 	// append MIC to the ciphertext since it is encrypted too
-	ct := append(dp.Bytes, p.MIC[:]...)
+	// (into a new buffer: append on dp.Bytes could write into its spare capacity)
+	ct := make([]byte, 0, len(dp.Bytes)+len(p.MIC))
+	ct = append(ct, dp.Bytes...)
+	ct = append(ct, p.MIC[:]...)
 
 	if len(ct)%16 != 0 {
 		return errors.New("lorawan: plaintext must be a multiple of 16 bytes")
